@@ -28,6 +28,10 @@ FORMATS = ["44100:16:2", "48000:24:2", "dsd64:2", "*:*:*", "", "a: b"]
 
 
 def gen_ts(rng):
+    if rng.random() < 0.25:
+        # valid RFC 3339 in other layouts than MPD's own: numeric offsets, fractions of a second
+        return rng.choice(["2020-06-12T17:53:00+00:00", "2020-06-12T17:53:00+02:00", "2020-06-12T17:53:00-08:00", "2020-06-12T17:53:00.5Z",
+                           "2020-06-12T23:59:59.999999999+05:30", "2020-06-12T00:00:00-00:00", "1999-12-31T23:59:59+14:00"])
     return "%04d-%02d-%02dT%02d:%02d:%02dZ" % (rng.choice([1970, 2020, 2024, rng.randrange(0, 10000)]), rng.randrange(1, 13),
                                                rng.randrange(1, 29), rng.randrange(24), rng.randrange(60), rng.randrange(60))
 
